@@ -171,6 +171,14 @@ Definition check_lock_impl (li : list (string * list string)) : list string :=
                      | [] => ["LOCK IMPLEMENTATION: " ++ fst e ++ " not found"]
                      end) expected_lock_impl.
 
+(* ------------------------------------------------------------------ the excluded entry points *)
+
+(* reset() is excluded by the documented contract; the exclusion is justified only if reset really is unsafe *)
+Definition excluded_unsafe_diag (eps ex : list (string * sk)) : list string :=
+  flat_map (fun p => match chk (written eps) false (snd p) with
+                     | [] => ["EXCLUDED entry point " ++ fst p ++ " obeys the lock discipline: its exclusion is not needed any more"]
+                     | _ => [] end) ex.
+
 (* ------------------------------------------------------------------ coverage of the generated skeleton (non-vacuity) *)
 
 (* entry points that must be present (prefix of "Class::name : signature") and must contain a locked region *)
@@ -338,3 +346,29 @@ Definition nonvacuous_diag (eps : list (string * sk)) : list string :=
                      | None => ["MISSING entry point " ++ p]
                      | Some s => if locked_work (prot_of (written eps)) false (fst (default_trace s)) then []
                                  else ["canonical execution of " ++ p ++ " does no protected access under the lock"] end) required_locked.
+
+(* ------------------------------------------------------------------ completeness direction of the checker (live code) *)
+
+(* s has an execution that completes normally *)
+Fixpoint can_normal (s : sk) : bool :=
+  match s with
+  | SRet => false
+  | SSeq a b => can_normal a && can_normal b
+  | SAlt a b => can_normal a || can_normal b
+  | SLocked _ _ _ b => can_normal b
+  | _ => true
+  end.
+
+(* a lock-discipline violation on LIVE code: a protected member accessed without the lock, a re-acquire, an unsupported lock
+   construct - not counting code that follows a statement which cannot complete normally (dead code) *)
+Fixpoint viol (wr : list field) (h : bool) (s : sk) : bool :=
+  match s with
+  | SAcc _ cls fld m =>
+      match m with Ini => false | _ => is_shared cls && mem_field (cls, fld) wr && negb h end
+  | SRaw _ _ => true
+  | SInl _ b | SLoop b => viol wr h b
+  | SSeq a b => viol wr h a || (can_normal a && viol wr h b)
+  | SAlt a b => viol wr h a || viol wr h b
+  | SLocked _ _ _ b => h || viol wr true b
+  | _ => false
+  end.
